@@ -7,30 +7,9 @@ META = {
     "level": "model_checking",
     "technique": "TLA+ spec of rpc/handler.go message handling (RPC.tla) model-checked with TLC over all messages of a bounded grammar and all timer/return interleavings; TLC-enumerated schedules forced on a real rpc.Server (pipe and HTTP) under testing/synctest with harness methods as gates and a fake clock for the timeout; raw output bytes parsed and compared",
     "text": "RPC.tla models handleBatch/handleNonBatchCall step by step (batchCallBuffer calls/resp/wrote, pushResponse, size limit, timeout timer, timer.Stop, single write, Notifier buffer/activate). TLC checks exactly one response per call id, none for notifications, one batch reply per batch, error fill-in on timeout/size overflow and notifications only after the subscription response for every message of the grammar (single/batch up to 3 entries mixing calls, notifications, invalid entries, unsolicited responses, duplicate ids) and every interleaving. Binding: every (quiescent state, environment step) of the schedule graph is executed on the real server: the service's methods are harness code blocking on gates, the timeout fires by advancing synctest's fake clock at the TLC-chosen moment, the bytes written to net.Pipe / the HTTP response are parsed and compared with the model output.",
-    "note": "Trusts TLC, testing/synctest (go1.24 GOEXPERIMENT=synctest), the output parser of harness/cmd/c49 (coarse error class by code). The model is the behaviour the property demands (AsCoded=FALSE); the as-coded variant (AsCoded=TRUE) is model-checked too and its counterexamples are the findings C49-F1/F2 (spec/net/NOTES.md). Websocket transport and client-side request matching are not covered.",
+    "note": "Trusts TLC, testing/synctest (go1.24 GOEXPERIMENT=synctest), the output parser of harness/cmd/c49 (coarse error class by code). RPC.tla has three variants: the idealised behaviour (atomic timeout, AsCoded=FALSE), handler.go before the fixes of findings C49-F1/F2 (AsCoded=TRUE; TLC still exhibits their counterexamples, documented in spec/net/NOTES.md) and handler.go as repaired (AsCoded and Fixed; model-checked against all invariants and used as oracle for the gated schedule replay and for V). Websocket transport and client-side request matching are not covered.",
     "design_ref": "3.7 C49",
 }
-
-# TODO-KNOWN-FINDING C49-F1: handleNonBatchCall's timeout timer writes an error response for a single
-# NOTIFICATION ("none for notifications" violated).  Exactly this fingerprint is treated as pending
-# until the coordinator decides between a fix: commit and known_findings.json (see spec/net/NOTES.md).
-def is_f1(v):
-    rep = v.get("replay") or {}
-    path = rep.get("path") or []
-    if len(path) != 2 or path[0]["act"]["op"] != "Recv" or path[1]["act"]["op"] != "Timer":
-        return False
-    m = path[0]["act"]["m"]
-    if m["batch"] or len(m["items"]) != 1 or m["items"][0]["k"] != "notif" or m["items"][0]["m"] != "blk":
-        return False
-    out = path[1]["real"]["out"]
-    return len(out) == 1 and out[0]["t"] == "single" and out[0]["rs"] == [{"id": 0, "kind": "timeout", "sub": 0}]
-
-
-# C49_FIXED=1: the tree under test carries the repairs of C49-F1/F2 (spec/net/mutations/C49-F*-candidate-fix.diff):
-# no pending handling, the gated schedule graph and the V oracle are the repaired variant of RPC.tla
-# (AsCoded /\ Fixed, model-checked against all invariants), any divergence is a violation.
-STRICT = os.environ.get("C49_FIXED") == "1"
-
 
 def rpc_graph(res, meta):
     ids, states, acts, actix, edges = {}, [], [], {}, []
@@ -76,100 +55,39 @@ def run(ctx):
         drv = ctx.build("c49")
     finally:
         os.environ.pop("GOEXPERIMENT", None)
-    # MC: all messages of the grammar x all interleavings, on the behaviour the property demands
+    # MC: all messages of the grammar x all interleavings; idealised behaviour and handler.go as repaired
     for cfg in ctx.pick(["MCRPCHttpQuick", "MCRPCConnQuick", "MCRPCFixed"], ["MCRPCHttp", "MCRPCHttpLimit", "MCRPCConn", "MCRPCFixed", "MCRPCFixedThorough"]):
         ctx.model_check("net/MCRPC", "net/" + cfg, timeout=7200, workers=4, name=cfg, deadlock=False)
-    # the as-coded variant must show the two known counterexamples (documentation of the findings, not a verdict)
-    r = ctx.tlc("net/MCRPC", "net/MCRPCAsCoded", timeout=3600, workers=4, deadlock=False, name="MCRPCAsCoded")
-    ctx.notes.append("as-coded model (AsCoded=TRUE): TLC %s" % ("finds a counterexample to %s (findings C49-F1/F2)" % r.violated if r.violated else "found no counterexample"))
-    # R: schedules forced on the real server
-    pending = []
-    gated = "MCRPCSchedGatedFixed" if STRICT else "MCRPCSchedGated"
-    for cfg in ctx.pick(["MCRPCSchedHttp", "MCRPCSchedConn", gated],
-                        ["MCRPCSchedHttp", "MCRPCSchedHttpLimit", "MCRPCSchedConn", "MCRPCSchedConnThorough", gated]):
+    # documentation only: the variant before the fixes of C49-F1/F2 still has its counterexample
+    r = ctx.tlc("net/MCRPC", "net/MCRPCAsCoded", timeout=3600, workers=4, deadlock=False, name="MCRPCAsCoded(pre-fix)")
+    ctx.notes.append("pre-fix variant of handler.go (AsCoded, not Fixed): TLC %s" % ("finds the counterexample to %s (fixed findings C49-F1/F2)" % r.violated if r.violated else "found no counterexample"))
+    # R: schedules forced on the real server.  MCRPCSchedGatedFixed: the timer function is held at the verif hook
+    # between cancel() and the error response, so the loop/timer race is scheduled by TLC.
+    for cfg in ctx.pick(["MCRPCSchedHttp", "MCRPCSchedConn", "MCRPCSchedGatedFixed"],
+                        ["MCRPCSchedHttp", "MCRPCSchedHttpLimit", "MCRPCSchedConn", "MCRPCSchedConnThorough", "MCRPCSchedGatedFixed"]):
         res = ctx.model_check("net/MCRPCSched", "net/" + cfg, tags=("EDGE", "STATE"), timeout=7200, workers=4, name=cfg, deadlock=False)
         gp = os.path.join(ctx.scratch, cfg + ".json")
         write_json(gp, rpc_graph(res, cfg_meta(os.path.join(SPEC, "net", cfg + ".cfg"))))
-        drive_filtered(ctx, drv, gp, cfg, pending)
-    # V: concurrent HTTP requests with real timeouts; any interleaving the specification allows is accepted.
-    # The as-coded variant of the specification is the oracle (it differs from the demanded behaviour only
-    # by findings F1/F2); a trace that the demanded behaviour cannot explain but the as-coded variant can is
-    # reported as the pending finding.   TODO-KNOWN-FINDING C49-F2 (pending coordinator decision)
+        s, _ = ctx.drive(drv, ["-mode", "replay", "-in", gp], name="c49-replay-" + cfg, timeout=7200)
+        # every executed schedule is a behaviour of the specification compared step by step with the real server
+        ctx.cov["traces_validated_against_impl"] += int(s.get("evaluations", 0))
+        nbad = int((s.get("extra") or {}).get("property_violating_states_reached_on_real_code", 0))
+        if nbad:
+            ctx.violation("the real rpc.Server reached %d states of the schedule graph %s that violate ExactlyOnce/AtMostOnce" % (nbad, cfg),
+                          {"kind": "behaviour", "cfg": cfg, "schedules": s["extra"].get("property_violating_paths")})
+    # V: concurrent HTTP requests with real timeouts (sleeping and cancellation-aware methods, deadline and
+    # WriteTimeout routes); any interleaving the repaired variant of RPC.tla allows is accepted.
     for aware in (False, True):
         tp = os.path.join(ctx.scratch, "stress-%s.ndjson" % aware)
         args = ["-mode", "stress", "-trace", tp, "-n", ctx.pick(600, 6000), "-workers", ctx.pick(6, 12)] + (["-ctxaware"] if aware else [])
         s, _ = ctx.drive(drv, args, name="c49-stress-ctxaware" if aware else "c49-stress", timeout=7200)
         if not os.path.exists(tp) or os.path.getsize(tp) == 0:      # the driver died (reported as a violation by ctx.drive)
             continue
-        oracle = "net/RPCTraceFixed" if STRICT else "net/RPCTraceAsCoded"
-        ok, consumed, total, r = ctx.validate("net/RPCTrace", tp, cfg=oracle, ntraces=s["traces"], timeout=7200,
-                                              silent_steps=True, dfs=True, name=os.path.basename(oracle))
+        ok, consumed, total, r = ctx.validate("net/RPCTrace", tp, cfg="net/RPCTraceFixed", ntraces=s["traces"], timeout=7200,
+                                              silent_steps=True, dfs=True, name="RPCTraceFixed")
         if not ok:
-            ctx.reject_trace("net/RPCTrace", tp, consumed, r, cfg=oracle,
-                             desc="HTTP request %d: response of the real rpc.Server has no explanation by RPC.tla (%s)" % (consumed // 3 + 1, os.path.basename(oracle)))
-            continue
-        if STRICT:
-            continue
-        ok2, consumed2, total2, r2 = ctx.validate("net/RPCTrace", tp, cfg="net/RPCTrace", ntraces=0, timeout=7200,
-                                                  silent_steps=True, dfs=True, name="RPCTrace(demanded)")
-        if not ok2:
-            lines = [l for l in open(tp).read().splitlines() if l.strip()]
-            req = json.loads(lines[consumed2 - 1]) if 0 < consumed2 <= len(lines) else None
-            out = json.loads(lines[consumed2]) if consumed2 < len(lines) else None
-            line = "PENDING-FINDING property=C49 C49-F2 timeout race: calls of a batch left unanswered / notification answered (request %d of the %s stress run)" % (consumed2 // 3 + 1, "ctx-aware" if aware else "sleeping")
-            pending.append(line)
-            import vcheck
-            json.dump({"property": "C49", "finding": "C49-F2", "request": req, "response": out, "seed": ctx.seed},
-                      open(os.path.join(vcheck.OUTDIR, "replays", "C49-F2-pending.json"), "w"), indent=1)
-    for line in pending:
-        ctx.notes.append(line)
-        print(line)
-    return ctx.finish(rule="MC: every message of the grammar (single or batch <= 3 entries over calls ret/err/big/blk/sub, notifications, invalid entries, unsolicited responses, ids 1..2) x all interleavings of loop, timer, late returns; R: every (quiescent state, environment step) of the schedule graphs on the real server",
-                      assumptions=["methods of the test service ignore context cancellation in R (the cancellation-aware race is finding C49-F2)",
-                                   "error classes compared by JSON-RPC error code", "pipe and HTTP transports only"])
-
-
-def drive_filtered(ctx, drv, gp, cfg, pending):
-    """Run the replay driver; violations matching the pending finding F1 are reported as notes."""
-    import subprocess, vcheck
-    out = os.path.join(ctx.scratch, "summary-%s.json" % cfg)
-    e = dict(os.environ, VERIF_SEED=str(ctx.seed), VERIF_TIER=ctx.tier)
-    try:
-        p = subprocess.run([drv, "-mode", "replay", "-in", gp, "-out", out], stdout=subprocess.PIPE, stderr=subprocess.STDOUT,
-                           text=True, timeout=7200, env=e, cwd=ctx.scratch)
-    except subprocess.TimeoutExpired:
-        raise InfraError("driver c49 timed out")
-    if not os.path.exists(out):
-        if re.search(r"^(panic:|fatal error:)", p.stdout, re.M):
-            ctx.violation("implementation panicked under driver c49 (%s)" % cfg, {"kind": "panic", "cfg": cfg, "seed": ctx.seed, "output_tail": p.stdout[-3000:]})
-            return None, p
-        raise InfraError("driver c49 produced no summary (rc=%d):\n%s" % (p.returncode, p.stdout[-4000:]))
-    s = json.load(open(out))
-    keep = []
-    for v in s.get("violations", []):
-        if not STRICT and is_f1(v):      # TODO-KNOWN-FINDING C49-F1 (pending coordinator decision)
-            line = "PENDING-FINDING property=C49 C49-F1 single notification answered with a timeout error (%s)" % cfg
-            if line not in pending:
-                pending.append(line)
-                rp = os.path.join(vcheck.OUTDIR, "replays", "C49-F1-pending.json")
-                json.dump(dict(v, property="C49", finding="C49-F1"), open(rp, "w"), indent=1)
-        else:
-            keep.append(v)
-    s["violations"] = keep
-    nbad = int((s.get("extra") or {}).get("property_violating_states_reached_on_real_code", 0))
-    if nbad and STRICT:
-        ctx.violation("the real rpc.Server reached %d states of the schedule graph %s that violate ExactlyOnce/AtMostOnce" % (nbad, cfg),
-                      {"kind": "behaviour", "cfg": cfg, "schedules": s["extra"].get("property_violating_paths")})
-    elif nbad:
-        # TODO-KNOWN-FINDING C49-F1/F2: the as-coded schedule graph (timer function held at the verif hook between
-        # cancel() and the error response) contains states that violate AtMostOnce/ExactlyOnce; the real server
-        # follows the graph into them.  Reported as pending, with the schedules, not as a verdict of this check.
-        line = "PENDING-FINDING property=C49 C49-F2 reproduced deterministically: the real rpc.Server reached %d states of the as-coded schedule graph that violate ExactlyOnce/AtMostOnce (%s)" % (nbad, cfg)
-        pending.append(line)
-        rp = os.path.join(vcheck.OUTDIR, "replays", "C49-F2-gated-pending.json")
-        json.dump({"property": "C49", "finding": "C49-F1/F2", "cfg": cfg, "schedules": s["extra"].get("property_violating_paths")}, open(rp, "w"), indent=1)
-        s["extra"]["property_violating_paths"] = "see " + rp
-    ctx.absorb(s, "c49-replay-" + cfg)
-    # every executed schedule is a behaviour of the specification compared step by step with the real server
-    ctx.cov["traces_validated_against_impl"] += int(s.get("evaluations", 0))
-    return s, p
+            ctx.reject_trace("net/RPCTrace", tp, consumed, r, cfg="net/RPCTraceFixed",
+                             desc="HTTP request %d: response of the real rpc.Server has no explanation by RPC.tla (repaired variant)" % (consumed // 3 + 1))
+    return ctx.finish(rule="MC: every message of the grammar (single or batch <= 3 entries over calls ret/err/big/blk/cblk/sub, notifications, invalid entries, unsolicited responses, ids 1..2) x all interleavings of loop, timer, late returns; R: every (quiescent state, environment step) of the schedule graphs on the real server, including the loop/timer race scheduled through the verif hook; V: concurrent HTTP requests with real timeouts",
+                      assumptions=["error classes compared by JSON-RPC error code", "pipe and HTTP transports only",
+                                   "V oracle is the repaired variant of RPC.tla (two-step timer), which TLC checks against all invariants"])
